@@ -219,7 +219,10 @@ public:
         auto dir = QDir(baseDir());
         auto maxIndex = 0;
 
-        const auto entries = dir.entryList(QDir::Files | QDir::Hidden);
+        // Every entry that occupies a name counts, not only regular files: a rename onto a
+        // directory (or a socket, a dangling link) with the name of a rotated file fails too
+        const auto entries = dir.entryList(QDir::AllEntries | QDir::Hidden | QDir::System
+                                           | QDir::NoDotAndDotDot);
         for (const QString &entry : entries) {
             auto match = re.match(entry);
             if (match.hasMatch()) {
